@@ -130,10 +130,27 @@ inductive Res where
   | ok (s : Step)
   deriving Repr, Inhabited
 
-/-- `SBlock.set_output(value)` on a block whose stored output is `out` -/
-def setOutput (c : Cfg) (out v : Val) : Res :=
+/-! ### float NaN
+
+The shared value domain `Val` has no NaN on purpose: `Val.pyEq` is an equivalence relation there and
+other models rely on it.  Output assignments are the place where the one value that is not equal to
+itself matters (`previous == value` is False for NaN even when it is the very same object), so this
+model carries NaN through the event data as a RESERVED value and uses a comparison that knows it. -/
+
+/-- the carrier of float NaN in the event data (a string no generator produces) -/
+def nanVal : Val := .atom (.str "\x00NaN")
+
+def isNan (v : Val) : Bool := v == nanVal
+
+/-- Python's `a == b` on the value domain extended by NaN: NaN is equal to nothing, not even to
+    itself; everything else as `Val.pyEq` -/
+def pyEqN (a b : Val) : Bool := !(isNan a) && !(isNan b) && a.pyEq b
+
+/-- `SBlock.set_output(value)` on a block whose stored output is `out`; `eq` is the model of
+    Python's `previous == value` -/
+def setOutputWith (eq : Val → Val → Bool) (c : Cfg) (out v : Val) : Res :=
   if v.isUndef then .valueError
-  else if out.pyEq v then
+  else if eq out v then
     if c.onEvery.isEmpty then .ok { out := out, changed := false, enq := false, sends := [] }
     else .ok { out := out, changed := false, enq := false,
                sends := sendAll .every c.name c.onEvery out v out }
@@ -143,26 +160,32 @@ def setOutput (c : Cfg) (out v : Val) : Res :=
                    ++ sendAll .every c.name c.onEvery out v v }
 
 /-- `CBlock.eval_block()` where `calc_output()` returned `v` -/
-def evalBlock (c : Cfg) (out v : Val) : Res :=
+def evalBlockWith (eq : Val → Val → Bool) (c : Cfg) (out v : Val) : Res :=
   if v.isUndef then .valueError
-  else if out.pyEq v then .ok { out := out, changed := false, enq := false, sends := [] }
+  else if eq out v then .ok { out := out, changed := false, enq := false, sends := [] }
   else .ok { out := v, changed := true, enq := false,
              sends := sendAll .output c.name c.onOutput out v v }
+
+/-- the two functions over the NaN-free shared domain: these are what the translation of the
+    source (Gen/TranslatedOutput.lean, theorems `TrTie.translated_*_is_model`) is compared with -/
+def setOutput (c : Cfg) (out v : Val) : Res := setOutputWith Val.pyEq c out v
+def evalBlock (c : Cfg) (out v : Val) : Res := evalBlockWith Val.pyEq c out v
+
+inductive BKind where
+  | sblock | cblock
+  deriving DecidableEq, Repr, Inhabited
+
+/-- one output assignment of a block of kind `k`, NaN included -/
+def assign : BKind → Cfg → Val → Val → Res
+  | .sblock => setOutputWith pyEqN
+  | .cblock => evalBlockWith pyEqN
 
 /-- the end of an accepted top-level FSM transition (`FSM._ctx_event`):
     `output = self.calc_output(); if output is not UNDEF: self.set_output(output)` —
     `none`: the state leaves the output alone; otherwise exactly one `set_output`, whether the
     value compares equal to the current output or not -/
 def fsmTransition (c : Cfg) (out cv : Val) : Option Res :=
-  if cv.isUndef then none else some (setOutput c out cv)
-
-inductive BKind where
-  | sblock | cblock
-  deriving DecidableEq, Repr, Inhabited
-
-def assign : BKind → Cfg → Val → Val → Res
-  | .sblock => setOutput
-  | .cblock => evalBlock
+  if cv.isUndef then none else some (assign .sblock c out cv)
 
 /-- one assignment of a history: the stored output before, the assigned value, what happened -/
 structure Rec where
